@@ -142,6 +142,23 @@ func (g *pathGen) step(d int, first bool) jast.Node {
 	case k == 16:
 		g.tags["object-step"] = true
 		s = &jast.Object{Pairs: [][2]jast.Node{{&jast.Str{V: "x"}, g.subPath(d)}}}
+	case k == 17 && r.Intn(2) == 0:
+		// function-call steps whose result is an array as the library builds it
+		// (a Go slice of another type than the JSON decoder's): flattened one
+		// level like any other array-valued step result
+		switch r.Intn(3) {
+		case 0:
+			g.tags["fn-step:split"] = true
+			s = &jast.Call{Fn: &jast.Var{Name: "split"}, Args: []jast.Node{&jast.Str{V: r.Pick("p,q", "p", "p,q,r")}, &jast.Str{V: ","}}}
+		case 1:
+			g.tags["fn-step:keys"] = true
+			g.usesWild = true
+			s = &jast.Call{Fn: &jast.Var{Name: "keys"}, Args: []jast.Node{&jast.Var{Name: ""}}}
+		default:
+			g.tags["fn-step:spread"] = true
+			g.usesWild = true
+			s = &jast.Call{Fn: &jast.Var{Name: "spread"}, Args: []jast.Node{&jast.Var{Name: ""}}}
+		}
 	case k == 17:
 		g.tags["fn-step:string"] = true
 		s = &jast.Call{Fn: &jast.Var{Name: "string"}}
